@@ -268,6 +268,11 @@ def rule_set_unset(ctx):
                     ctx.violation("C15.g", "variables", "Variables.update_variables", "value rendered in another dialect", "fakesnow/variables.py",
                                   "the value of SET is rendered with a dialect other than Snowflake's and later inlined into Snowflake SQL: "
                                   "string escapes are applied twice (`set v='a\\\\b'` yields 'a' + backspace)")
+            if want == "unset" and tr.path.outcome == "raise":
+                ctx.ob("C15.f", "UNSET of a variable that is not set succeeds", False, "fakesnow/variables.py", repr(tr.path.value))
+                ctx.violation("C15.f", "variables", "Variables.update_variables", "UNSET of an undefined variable raises", "fakesnow/variables.py",
+                              f"UNSET of a variable that is not set raises {tr.path.value.cls} (a bare Python error, not a Snowflake one); it should succeed")
+                continue
             ctx.ob("C15.f", f"{kind}: updates the connection's own mapping, statement becomes the success no-op", ok, "fakesnow/variables.py")
             if not ok:
                 ctx.violation("C15.f", "variables", "Variables.update_variables", f"{kind} handling", "fakesnow/variables.py",
